@@ -209,8 +209,41 @@ func (s *TimerQueue) tick(t time.Time) {
 	var deadline = s.convTimeUnit(t)
 	var expires = s.trigger(deadline)
 	for _, node := range expires {
-		if node.r != nil {
+		if node.r == nil {
+			continue
+		}
+		if node.period > 0 {
+			s.deliverRepeating(node)
+		} else {
 			s.C <- node.r
+		}
+	}
+}
+
+// A repeating timer stays in the refer map when it fires, so it can be cancelled while
+// the worker waits for room in the output channel.  Hand its runnable over only while it
+// is still scheduled: the check and the (non-blocking) send are one step under the mutex,
+// so a Cancel that returns true is never followed by a delivery; when the channel is
+// full, wait for the consumer without holding the mutex.
+func (s *TimerQueue) deliverRepeating(node *timerNode) bool {
+	for {
+		s.guard.Lock()
+		if s.refer[node.id] != node {
+			s.guard.Unlock()
+			return false // cancelled while waiting
+		}
+		select {
+		case s.C <- node.r:
+			s.guard.Unlock()
+			return true
+		default:
+		}
+		s.guard.Unlock()
+
+		select {
+		case <-s.done:
+			return false
+		case <-time.After(s.tickInterval):
 		}
 	}
 }
